@@ -765,10 +765,18 @@ class FnTranslator:
         for sc in self.scopes[:-1]:
             if name in sc and not nested_ok and not top_level:
                 self.err("`%s` shadows a variable of an enclosing block (not translated)" % name, node)
-        lean = lean_name(name)
-        v = Var(name, lean, ty, mutable, ref_elem)
+        v = Var(name, self.fresh_lean(name), ty, mutable, ref_elem)
         self.scopes[-1][name] = v
         return v
+
+    def fresh_lean(self, name):
+        """Lean name for the Rust variable `name`: its own name, primed while another live variable (e.g. the field
+        `self.mask` next to a local `mask`) already uses it"""
+        lean = lean_name(name)
+        live = set(v.lean for sc in self.scopes for k, v in sc.items() if k != name)
+        while lean in live:
+            lean += "'"
+        return lean
 
     # ---------------------------------------------------------------- variable analysis
     def assigned(self, node, declared=None):
@@ -1603,7 +1611,7 @@ class FnTranslator:
             params.append(v)
         for nm, ty in sp["params"]:
             t = self.ty_of_text(ty)
-            v = Var(nm, lean_name(nm), t)
+            v = Var(nm, self.fresh_lean(nm), t)
             self.scopes[0][nm] = v
             params.append(v)
         ret = self.ty_of_text(sp["ret"]) if sp.get("ret") else TUnit()
@@ -1822,6 +1830,24 @@ unit(name="SrcFenwick", props="property C18", file="src/data_structures/bit_tree
                 dict(name="FenwickTree::set", lean="set", header="pub fn set(&mut self, idx: usize, val: T)",
                      self_fields=[("tree", "Vec<T>")], params=[("idx", "usize"), ("val", "T")], ret=None,
                      fuel=["tree.length + 1"], theorem="RbV.Thm.GenSrcFenwick.set_eq_model")])
+
+
+unit(name="SrcBitEnc", props="property C18", file="src/data_structures/bitenc.rs",
+     functions=[dict(name="mask", lean="mask", header="fn mask(width: usize) -> u32",
+                     params=[("width", "usize")], ret="u32", theorem="RbV.Thm.GenSrcBitEnc.mask_eq_model"),
+                dict(name="BitEnc::get_by_addr", lean="getByAddr",
+                     header="fn get_by_addr(&self, block: usize, bit: usize) -> u8",
+                     self_fields=[("storage", "Vec<u32>"), ("mask", "u32")],
+                     params=[("block", "usize"), ("bit", "usize")], ret="u8",
+                     theorem="RbV.Thm.GenSrcBitEnc.getByAddr_eq_model"),
+                dict(name="BitEnc::set_by_addr", lean="setByAddr",
+                     header="fn set_by_addr(&mut self, block: usize, bit: usize, value: u8)",
+                     self_fields=[("storage", "Vec<u32>"), ("mask", "u32")],
+                     params=[("block", "usize"), ("bit", "usize"), ("value", "u8")], ret=None,
+                     theorem="RbV.Thm.GenSrcBitEnc.setByAddr_eq_model"),
+                dict(name="BitEnc::addr", lean="addr", header="fn addr(&self, i: usize) -> (usize, usize)",
+                     self_fields=[("width", "usize"), ("usable_bits_per_block", "usize")],
+                     params=[("i", "usize")], ret="(usize, usize)", theorem="RbV.Thm.GenSrcBitEnc.addr_eq_model")])
 
 
 def main():
